@@ -83,8 +83,12 @@ impl Driver {
             return Ok(res.clone());
         }
 
+        // the file may be missing or may not be valid UTF-8
         let content =
-            fs::read_to_string(path.clone()).expect("Should have been able to read the file");
+            fs::read_to_string(path.clone()).map_err(|err| DriverError::FileNotReadable {
+                path: path.display().to_string(),
+                message: err.to_string(),
+            })?;
         self.sources.insert(path.clone(), content.clone());
         Ok(content)
     }
@@ -416,9 +420,12 @@ impl Driver {
 
     /// This function converts a [`DriverError`] to a [`miette`] report.
     pub fn error_to_report(&mut self, err: DriverError, path: &PathBuf) -> miette::Report {
-        let content = self.source(path).expect("Couldn't find source file");
         let err: miette::Error = err.into();
-        err.with_source_code(content)
+        // if the source itself could not be read, the error is reported without it
+        match self.source(path) {
+            Ok(content) => err.with_source_code(content),
+            Err(_) => err,
+        }
     }
 
     /// This function deletes all files in the target directory.
